@@ -1102,8 +1102,11 @@ static void run() {
   set_context("");
 }
 
+extern "C" int __sanitizer_install_malloc_and_free_hooks(void (*)(const volatile void*, size_t), void (*)(const volatile void*)) __attribute__((weak));
+
 static void process_init() {
-  __sanitizer_install_malloc_and_free_hooks(on_malloc, on_free);
+  // (absent only in the diagnostic coverage build, which has no sanitizer runtime: the leak oracle is inert there)
+  if (__sanitizer_install_malloc_and_free_hooks) __sanitizer_install_malloc_and_free_hooks(on_malloc, on_free);
 }
 
 int main(int argc, char** argv) {
